@@ -67,6 +67,18 @@ Theorem C20_optional_law_end_to_end_partial :
          end.
 Proof. exact opt_law_end_to_end. Qed.
 
+(* r{n,} = n copies of r then r*, for a character r, with n as written in the pattern (decimal digits,
+   [dec ds]): every c{n,} (and c{n,}?) of a pattern of the grammar spelled as c...cc* (c...cc*?) *)
+Theorem C20_at_least_law_end_to_end_partial :
+  forall fl a input,
+    ok_a (f_xpath fl) a = true -> f_literal fl = false -> f_ws fl = false -> (N.of_nat (length input) < umax)%N ->
+    exists prog prog', compile true fl (show_a a) = Ok prog /\ compile true fl (show_a (atl_a a)) = Ok prog'
+      /\ match matches prog input 0 st0, matches prog' input 0 st0 with
+         | MTrue _, MTrue _ | MFalse _, MFalse _ => True
+         | _, _ => False
+         end.
+Proof. exact at_least_law_end_to_end. Qed.
+
 Print Assumptions C20_wrap_noncapturing_spec.
 Print Assumptions C20_group_to_noncapturing_spec.
 Print Assumptions C20_alt_idempotent_spec.
@@ -81,3 +93,4 @@ Print Assumptions C20_char_class_spec.
 Print Assumptions C20_class_alt_spec.
 Print Assumptions C20_plus_law_end_to_end_partial.
 Print Assumptions C20_optional_law_end_to_end_partial.
+Print Assumptions C20_at_least_law_end_to_end_partial.
